@@ -2,6 +2,7 @@ package main
 
 func registerAll() {
 	registerWorld(evidWorld{})
+	registerWorld(netWorld{})
 
 	stubsEvid := []string{"FaultySigner (wrapper around the real go-cose signer)", "deterministic crypto.Signer wrapper over pool keys",
 		"sim extension profiles XP1/XP2 (thin structs over the real encoding helpers, fault switch)", "committed key pool"}
@@ -22,5 +23,28 @@ func registerAll() {
 			"non-trivial = at least one gate evaluated with claims whose Validate() fails and one with claims whose Validate() succeeds; distinct = distinct hash of (operation-kind+fault sequence, pools)",
 		Real: commonReal, Stubs: stubsEvid,
 		Assumptions: []string{"the oracle is differential: Validate() of the real code and the non-validating sibling are the reference, no validation constant is mirrored"},
+	}
+
+	stubsNet := []string{"channel (in-flight slots, fault injector)", "verifier actors (trust store = one pool key each)", "deterministic crypto.Signer wrapper over pool keys",
+		"sim extension profile XP2", "committed key pool"}
+	props["C02"] = &propSpec{
+		ID: "C02", Worlds: []string{"W-NET"}, QuickRuns: 2500, ThoroughRuns: 300000,
+		Rule: "one run = 2..5 attesters (all seven algorithms, several keys per algorithm) emitting 2..6 tokens through reused Evidence objects; every token is delivered un-damaged to the right verifier, then 1..4 copies each take 1..3 channel faults (bit flip, byte substitution, multi-byte edit, truncation, extension, splice of protected/payload/signature from another in-flight token, header surgery, length-field inflation, concatenation) and are delivered to a verifier holding the right or a wrong key; the genuine token is also misrouted. " +
+			"Runs 0..13 of every batch instead deliver EVERY single-bit flip of one token per (algorithm x profile). " +
+			"non-trivial = at least one damaged token still decoded, so that Verify was the deciding step; distinct = distinct hash of (operation+fault kind sequence, claims shapes, algorithms, keys)",
+		Real: commonReal, Stubs: stubsNet,
+		Assumptions: []string{"ledger completeness: every signature in a run is produced through the harness, so 'genuinely signed by key k' is the set of (protected,payload,signature) triples recorded at emit time",
+			"ECDSA (r, n-s) malleability is not reachable by the injected faults; any accepted token with a signature differing from the ledger is reported",
+			"differences confined to the outer framing or the unprotected bucket are not 'modification' in the property's sense (the covered bytes are unchanged)"},
+		MustProbes: []string{"damaged_still_decoded", "accepted_genuine", "misroute_rejected", "bitsweep_tokens", "net.splice", "net.hdr", "net.leninflate", "net.truncate", "net.bitflip", "net.bytesub", "net.multi", "net.extend", "net.concat", "net.misroute"},
+	}
+	props["C03"] = &propSpec{
+		ID: "C03", Worlds: []string{"W-NET"}, QuickRuns: 2500, ThoroughRuns: 300000,
+		Rule: "fault-free arm of W-NET: one run = 2..5 attesters x 2..6 emissions of generated valid claims-sets (both profiles + an extension profile, built by field assignment or through the setters) with a healthy signer of each of the seven algorithms, through a reused Evidence (SetClaims+ValidateAndSign | Sign) or a fresh one; each emission is checked at the attester and each token is delivered un-damaged (sometimes twice, sometimes also to a wrong key) to three kinds of verifier (decode, decode-and-validate, reused Evidence). " +
+			"non-trivial = at least one complete sign->decode->verify round trip succeeded; distinct = distinct hash of (claims shape: profile, optional-claim subset, hash sizes, component count and optional fields; algorithm; key; emit mode)",
+		Real: commonReal, Stubs: stubsNet,
+		Assumptions: []string{"'valid claims-set' is decided by the library's own Validate() (a generated set it rejects is skipped and counted under probe emit_claims_not_valid)",
+			"the quantifier 'all valid claims-sets' is sampled, not enumerated", "go-cose's verifier, called directly with empty external data, is the interoperability reference"},
+		MustProbes: []string{"round_trip_ok", "accepted_genuine"},
 	}
 }
